@@ -13,7 +13,7 @@
 (***************************************************************************)
 EXTENDS Components
 
-Tan20 == "0.36397023426620236135104788277683191037316154439327"     \* tan(20 deg), 50 digits
+Tan20 == "0.36397023426620236135104788277683404389047178375374"     \* tan(20 deg), 50 digits
 HertzK == "0.262922"
 
 (* ---- Lewis factor table (tabulated teeth numbers) ---- *)
